@@ -187,10 +187,12 @@ class RegionBoundingBox:
         if len(shape) != 2:
             raise ValueError('input shape must have 2 elements.')
 
-        xmin = self.ixmin
-        xmax = self.ixmax
-        ymin = self.iymin
-        ymax = self.iymax
+        # use Python ints so that negating or subtracting bounds given as
+        # (unsigned) numpy integers cannot wrap around
+        xmin = int(self.ixmin)
+        xmax = int(self.ixmax)
+        ymin = int(self.iymin)
+        ymax = int(self.iymax)
 
         if (xmin >= shape[1] or ymin >= shape[0] or xmax <= 0 or ymax <= 0
                 or xmin >= xmax or ymin >= ymax
